@@ -32,7 +32,7 @@ STRIDES = {"quick": 8, "thorough": 16}
 
 FEAT = gen.feat(
     p_self=0.12,
-    bodies={"leaf": 4, "next": 3, "rec": 1.5, "fnext": 0.5, "next2": 0.4,
+    bodies={"next_try": 0.6, "leaf": 4, "next": 3, "rec": 1.5, "fnext": 0.5, "next2": 0.4,
             "next_other": 0.3, "rec_next": 0.5},
     p_kw=0.1, p_optional=0.1, ncorpus=(4, 6), nmeth=(3, 6),
 )
